@@ -145,6 +145,38 @@ func genStmt(t *rapid.T, gi *GroupInfo, label string) *stmt {
 	return s
 }
 
+// freeResponse: some branch has a secret whose bases cancel (x*B + x*(-B)) in every representation of
+// that branch that uses it.  The response for that secret is then multiplied by the identity in every
+// verification equation: no verifier can distinguish two values of it, so a proof that differs only
+// there is not "altered to a semantically different value".
+func (s *stmt) freeResponse(gi *GroupInfo) bool {
+	for _, br := range s.branches {
+		constrained := map[string]bool{}
+		seen := map[string]bool{}
+		for _, r := range br {
+			sum := map[string]kyber.Point{}
+			for _, tm := range r.terms {
+				if sum[tm[0]] == nil {
+					sum[tm[0]] = nullPoint(gi)
+				}
+				sum[tm[0]] = gi.G.Point().Add(sum[tm[0]], s.points[tm[1]])
+			}
+			for x, b := range sum {
+				seen[x] = true
+				if !b.Equal(nullPoint(gi)) {
+					constrained[x] = true
+				}
+			}
+		}
+		for x := range seen {
+			if !constrained[x] {
+				return true
+			}
+		}
+	}
+	return false
+}
+
 func (s *stmt) prover(suite proof.Suite, secrets map[string]kyber.Scalar, wrapSingle bool) (proof.Prover, proof.Predicate) {
 	pred, _ := buildPred(s.branches, wrapSingle)
 	choice := map[proof.Predicate]int{}
@@ -231,13 +263,18 @@ func c14Hash(t *rapid.T, ev *evProp) {
 			reject(e, pn, "proof made with a wrong value for "+x)
 		}
 	case "bitflip":
-		pos := rapid.IntRange(0, len(prf)*8-1).Draw(t, "bit")
+		if st.freeResponse(gi) {
+			ev.Assume("proof byte mutations are not judged on statements in which the bases of some secret cancel (its response is unconstrained by the verification equations)")
+			applies = false
+			break
+		}
+		pos := uniformInt(t, 0, len(prf)*8-1, "bit")
 		m := append([]byte(nil), prf...)
 		m[pos/8] ^= 1 << uint(pos%8)
 		e, pn := verify(pred, st.points, name, m)
 		reject(e, pn, fmt.Sprintf("proof with bit %d of %d flipped", pos, len(prf)*8))
 	case "truncate":
-		l := rapid.IntRange(0, len(prf)-1).Draw(t, "len")
+		l := uniformInt(t, 0, len(prf)-1, "len")
 		e, pn := verify(pred, st.points, name, prf[:l])
 		reject(e, pn, fmt.Sprintf("proof truncated to %d of %d bytes", l, len(prf)))
 	case "other-point":
@@ -296,6 +333,23 @@ func c14Hash(t *rapid.T, ev *evProp) {
 		e, pn := verify(p2, st.points, name, prf)
 		reject(e, pn, fmt.Sprintf("verification against the predicate with branches %d and %d exchanged", i, i+1))
 	case "other-name":
+		// The protocol name only enters through the challenge c.  For a plain conjunction of
+		// representations whose public points are ALL the identity (secret 0, or cancelling terms) the
+		// verification equation V = sum r_i*B_i + c*P does not depend on c at all, so the proof is
+		// valid under every name - a property of the degenerate statement, not of the library.
+		// (a single-branch Or is transmitted like its only branch: no sub-challenges are sent)
+		if len(st.branches) == 1 {
+			dep := false
+			for _, r := range st.branches[0] {
+				if !st.points[r.P].Equal(nullPoint(gi)) {
+					dep = true
+				}
+			}
+			if !dep {
+				applies = false
+				break
+			}
+		}
 		e, pn := verify(pred, st.points, name+"x", prf)
 		reject(e, pn, "verification under another protocol name")
 	case "swap-proofs":
@@ -306,7 +360,11 @@ func c14Hash(t *rapid.T, ev *evProp) {
 			applies = false
 			break
 		}
-		cut := rapid.IntRange(1, len(prf)-1).Draw(t, "cut")
+		if st.freeResponse(gi) {
+			applies = false
+			break
+		}
+		cut := uniformInt(t, 1, len(prf)-1, "cut")
 		m := append(append([]byte(nil), prf[:cut]...), p2[cut:]...)
 		if string(m) == string(prf) || string(m) == string(p2) {
 			applies = false
